@@ -726,8 +726,11 @@ class Evolution(pg.DNAGenerator):
     """Performs a single round of evolution process."""
     # Step 1: Select parents from the population.
     current_step = self.num_proposals
-    children = self._reproduction(
-        self._population, global_state=self._global_state, step=current_step)
+    # NOTE: the reproduction may return its input list itself (e.g. `Identity`
+    # or a `Choice` that applies nothing): take a copy, the items are replaced
+    # by clones below.
+    children = list(self._reproduction(
+        self._population, global_state=self._global_state, step=current_step))
     if not children:
       raise ValueError(
           'There is no child reproduced, which means that the population '
